@@ -155,7 +155,7 @@ func genLaws(r *rand.Rand, s *scriptWriter, ids []string, rich float64) {
 	s.op("Union", "a", "y", "b", "z", "out", "yz")
 	s.op("Union", "a", "xy", "b", "z", "out", "xy_z")
 	s.op("Union", "a", "x", "b", "yz", "out", "x_yz")
-	s.op("LawSame", "a", "xy_z", "b", "x_yz", "law", "union.associative")
+	s.op("LawSameIfClosed", "a", "xy_z", "b", "x_yz", "c", []string{"x", "y", "z"}, "law", "union.associative")
 	// in-place variant on a copy of x
 	s.op("Copy", "a", "x", "out", "ax")
 	s.op("Add", "a", "ax", "b", "y")
@@ -168,7 +168,7 @@ func genLaws(r *rand.Rand, s *scriptWriter, ids []string, rich float64) {
 	s.op("Intersect", "a", "y", "b", "x", "out", "iyx")
 	s.op("LawSame", "a", "ixy", "b", "iyx", "law", "intersect.commutative")
 	s.op("Intersect", "a", "x", "b", "x", "out", "ixx")
-	s.op("LawSameClean", "a", "ixx", "b", "x", "law", "intersect.idempotent")
+	s.op("LawSameCleanStrict", "a", "ixx", "b", "x", "law", "intersect.idempotent")
 	s.op("Intersect", "a", "x", "b", "e", "out", "ixe")
 	s.op("LawEmpty", "a", "ixe", "law", "intersect.empty-right")
 	s.op("Intersect", "a", "e", "b", "x", "out", "iex")
